@@ -23,8 +23,8 @@ PID = "C16"
 MANIFEST = dict(
     category="model_checking",
     technique="TLC enumerates the complete finite space of abstract scenario descriptions of ScenarioConfig.tla and "
-              "computes their meaning; every case is rendered in HCL and YAML (two styles each, plus .yml and .json on a "
-              "share of the cases), run through the real front-ends and registered providers, and "
+              "computes their meaning; every case is rendered in HCL (plain; locals+functions; functions without locals; "
+              "several locals blocks without functions) and YAML (two styles, plus .yml and .json on a share of the cases), run through the real front-ends and registered providers, and "
               "TraceScenarioConfig.tla (TLC) demands that every rendering equals that meaning",
     design_ref="DESIGN.md §4 C16",
     text="The property quantifies over scenario descriptions. The specification is a function from an abstract "
@@ -43,9 +43,10 @@ MANIFEST = dict(
 )
 
 STYLES = ["hcl", "hcll", "yaml", "yamla"]          # rendered for every case
-EXTRA = ["yml", "json"]                           # documented extensions, on a share of the cases
+EXTRA = ["hclf", "hclv", "yml", "json"]            # further HCL convenience styles / extensions, on a share of the cases
 CFG_INVS = ["AcceptedHcl", "AcceptedHclL", "AcceptedYaml", "AcceptedYamlA", "CfgHcl", "CfgHclL", "CfgYaml", "CfgYamlA",
-            "AmmoHcl", "AmmoHclL", "AmmoYaml", "AmmoYamlA", "AcceptedYml", "CfgYml", "AmmoYml",
+            "AmmoHcl", "AmmoHclL", "AmmoYaml", "AmmoYamlA", "AcceptedHclF", "CfgHclF", "AmmoHclF",
+            "AcceptedHclV", "CfgHclV", "AmmoHclV", "AcceptedYml", "CfgYml", "AmmoYml",
             "AcceptedJson", "CfgJson", "AmmoJson", "Complete", "OptionalSurvive", "AmmoShape", "DefaultsApplied"]
 TRACE_CONSTS = """CONSTANTS
   Tokens = {}
@@ -183,7 +184,8 @@ def report(v, rows, bad, base, binary):
                     "case %d: invariant(s) %s fail (no replay file: more than 40 failing cases)" % (row["id"], sorted(bad[ln])))
 
 
-_SUFFIX = {"hcl": "Hcl", "hcll": "HclL", "yaml": "Yaml", "yamla": "YamlA", "yml": "Yml", "json": "Json"}
+_SUFFIX = {"hcl": "Hcl", "hcll": "HclL", "yaml": "Yaml", "yamla": "YamlA", "yml": "Yml", "json": "Json",
+           "hclf": "HclF", "hclv": "HclV"}
 
 
 def validate(v, trace, rows, base, binary, workers=8, timeout=900):
@@ -286,7 +288,8 @@ def run(tier, v):
     picks = rows[5::max(1, len(rows) // 4)][:4]
     sub, tx = os.path.join(d, "sample_cases.ndjson"), os.path.join(d, "sample_texts.ndjson")
     vlib.write_ndjson(sub, [gen[r_["id"] - 1] for r_ in picks])
-    vlib.run_driver(binary, ["scenconfig", "-cases", sub, "-out", os.path.join(d, "sample_out.ndjson"), "-texts", tx])
+    vlib.run_driver(binary, ["scenconfig", "-cases", sub, "-out", os.path.join(d, "sample_out.ndjson"), "-texts", tx,
+                             "-allstyles"])
     texts = vlib.read_ndjson(tx)
     samples = []
     for r_, t in zip(picks, texts):
@@ -294,7 +297,10 @@ def run(tier, v):
         samples.append({"id": r_["id"], "kind": r_["key"]["k"], "case": case_class(r_["key"], base),
                         "all_renderings_identical": all(r_["out"][s].get("same") for s in STYLES[1:]),
                         "scenarios_in_ammo": [a["name"] for a in (o.get("ammo") or [])],
-                        "hcl_locals_head": t["texts"]["hcll"][:700], "yaml_anchors_head": t["texts"]["yamla"][:500]})
+                        "hcl_locals_functions_head": t["texts"]["hcll"][:700],
+                        "hcl_functions_only_tail": t["texts"]["hclf"][-500:],
+                        "hcl_locals_only_head": t["texts"]["hclv"][:600],
+                        "yaml_anchors_head": t["texts"]["yamla"][:400]})
     cov = {
         "states": states + tr.distinct, "transitions": trans + tr.generated,
         "design_states": states, "trace_spec_states": tr.distinct,
